@@ -214,6 +214,20 @@ def run(pid, P, a, seed, t0):
             nat = dict(status="error", problems=[dict(name="?", problem=(r.stdout + r.stderr)[-400:])])
         driver_info["native"] = dict(status=nat.get("status"), bundled_files_ok=nat.get("bundled_files_ok"), problems=len(nat.get("problems", [])))
         driver_info["native_replay"] = out
+    # derived library lemmas (assumptions about NumPy): validated differentially against the installed NumPy on every run that
+    # used one; a failure means the trusted base is wrong -> checker error, never a verdict about the repository
+    liblemma_info = None
+    if any("derived library lemma" in x for r in results for x in r.assumed):
+        out = os.path.join(VERIF, "out", "replays", f"{pid}_liblemmas.json")
+        subprocess.run([TARGET_PY, "-m", "pyvc.rt_liblemmas", out, "1500" if a.tier != "thorough" else "20000", str(seed)],
+                       cwd=VERIF, env=rt_env(), capture_output=True, text=True, timeout=600)
+        try:
+            liblemma_info = json.load(open(out))
+        except Exception:
+            liblemma_info = dict(status="error")
+        if liblemma_info.get("status") != "ok":
+            print(f"CHECKER-ERROR property={pid}: a derived library lemma does not hold for the installed NumPy: {json.dumps(liblemma_info)[:600]}")
+            return 3
     lemma_obls = []
     lemma_names = list(P.get("lemmas", []))
     for r in results:
@@ -398,6 +412,7 @@ def run(pid, P, a, seed, t0):
             bounded_monitoring=dict(functions=monitor, **rt_stats),
             degraded=[dict(function=q, reason=why, stand_in="run-time contract monitoring (bounded)") for q, why in degraded],
             explanation=P.get("explanation", ""),
+            library_lemma_validation=liblemma_info,
             exhaustive=bool(driver_info),
             enumeration=driver_info,
         ),
